@@ -6,7 +6,7 @@ Levels == {"GGA", "MGGA"}
 DotPairs == {<<-1, -1>>, <<-1, 0>>, <<-1, 1>>, <<0, 0>>, <<0, 1>>, <<1, 1>>, <<-2, 0>>, <<0, 2>>}
 NoNLDF == <<>>
 NoSDMX == [kind |-> "none", pows |-> <<>>, nd |-> 0, n1 |-> 0, full |-> <<>>]
-NoFL == [present |-> FALSE, s2 |-> <<>>, nk0 |-> 0, nk1 |-> 0, dots |-> <<>>, nd1 |-> 0, ndd |-> 0]
+NoFL == [present |-> FALSE, s2 |-> <<>>, nk0 |-> 0, nk1 |-> 0, dots |-> <<>>, lddots |-> <<>>, nd1 |-> 0, ndd |-> 0]
 Base(nldf) == [sl |-> "npa", nldf |-> nldf, sdmx |-> NoSDMX, fl |-> NoFL]
 N(ver, level, rm, tl, a0ok, l0, l1, dots, js, jp) ==
    [ver |-> ver, level |-> level, rho_mult |-> rm, theta_len |-> tl, a0ok |-> a0ok,
@@ -48,9 +48,12 @@ NormN(lv) == {N("j", lv, "expnt", TL(lv), TRUE, <<>>, <<>>, <<>>, <<"se", "se_ar
               N("k", lv, "expnt", TL(lv), TRUE, <<>>, <<>>, <<>>, <<"se", "se">>, <<TL(lv), TL(lv)>>),
               N("i", lv, "one", TL(lv), TRUE, <<"se_r2", "se_ap">>, <<"se_grad">>, <<<<0, 0>>, <<-1, 0>>>>, <<>>, <<>>),
               N("i", lv, "expnt", TL(lv), TRUE, <<"se", "se_apr2">>, <<"se_grad", "se_rvec">>, <<<<0, 1>>, <<-1, 1>>>>, <<>>, <<>>)}
-FL1 == [present |-> TRUE, s2 |-> <<-1, 1>>, nk0 |-> 2, nk1 |-> 1, dots |-> <<<<-1, 0>>>>, nd1 |-> 1, ndd |-> 1]
-SLNormCfgs == UNION {{[sl |-> m, nldf |-> n, sdmx |-> NoSDMX, fl |-> f] : n \in NormN(LevelOf(m)) \cup {NZ(x) : x \in NormN(LevelOf(m))}, f \in {NoFL, FL1}} : m \in {"nst", "npa", "ns", "np"}}
-              \cup {[sl |-> m, nldf |-> NoNLDF, sdmx |-> NoSDMX, fl |-> FL1] : m \in {"nst", "npa", "ns", "np"}}
+FL1 == [present |-> TRUE, s2 |-> <<-1, 1>>, nk0 |-> 2, nk1 |-> 1, dots |-> <<<<-1, 0>>>>, lddots |-> <<>>, nd1 |-> 1, ndd |-> 1]
+\* both dot groups, of different lengths and with different powers at equal positions (the groups have their own offsets)
+FL2 == [present |-> TRUE, s2 |-> <<-1, 1>>, nk0 |-> 2, nk1 |-> 2, dots |-> <<<<0, 0>>>>, lddots |-> <<<<1, 1>>, <<-1, 0>>>>, nd1 |-> 2, ndd |-> 1]
+FL3 == [present |-> TRUE, s2 |-> <<0, 1, 2>>, nk0 |-> 1, nk1 |-> 2, dots |-> <<<<1, 0>>, <<-1, 1>>>>, lddots |-> <<<<0, 0>>>>, nd1 |-> 1, ndd |-> 0]
+SLNormCfgs == UNION {{[sl |-> m, nldf |-> n, sdmx |-> NoSDMX, fl |-> f] : n \in NormN(LevelOf(m)) \cup {NZ(x) : x \in NormN(LevelOf(m))}, f \in {NoFL, FL1, FL2}} : m \in {"nst", "npa", "ns", "np"}}
+              \cup {[sl |-> m, nldf |-> NoNLDF, sdmx |-> NoSDMX, fl |-> f] : m \in {"nst", "npa", "ns", "np"}, f \in {FL1, FL2, FL3}}
 Pows == SeqsUpTo({0, 1, 2}, 3)
 SDMXCfgs ==
   {[sl |-> "npa", nldf |-> n, sdmx |-> [kind |-> k, pows |-> p, nd |-> nd, n1 |-> n1, full |-> <<>>], fl |-> NoFL] :
@@ -69,8 +72,8 @@ SDMXFullCfgs ==
       r \in {<<10, 15>>, <<10, 20>>, <<15, 20>>}, p1 \in FullPowsSet, p2 \in FullPowsSet, c1 \in FullCnts, c2 \in FullCnts}
 FLCfgs ==
   {[sl |-> "npa", nldf |-> NoNLDF, sdmx |-> NoSDMX,
-    fl |-> [present |-> TRUE, s2 |-> s2, nk0 |-> a, nk1 |-> b, dots |-> d, nd1 |-> c, ndd |-> e]] :
-      s2 \in {<<-1>>, <<-1, 1>>, <<0, 1, 2>>}, a \in 0..3, b \in 0..2, d \in SeqsUpTo(DotPairs, 1), c \in 0..2, e \in 0..2}
+    fl |-> [present |-> TRUE, s2 |-> s2, nk0 |-> a, nk1 |-> b, dots |-> d, lddots |-> ld, nd1 |-> c, ndd |-> e]] :
+      s2 \in {<<-1>>, <<-1, 1>>, <<0, 1, 2>>}, a \in 0..3, b \in 0..2, d \in SeqsUpTo(DotPairs, 1), ld \in {<<>>, <<<<0, 0>>>>, <<<<-1, 1>>>>}, c \in 0..2, e \in 0..2}
 QuickCfgs == <<VICfgs(1, 2, 2), VJKCfgs(2), VIJCfgs, BadCfgs, SLCfgs, SLNormCfgs, SDMXCfgs, SDMXFullCfgs, FLCfgs>>
 FullCfgs == <<VICfgs(2, 2, 2), VJKCfgs(2), VIJCfgs, BadCfgs, SLCfgs, SLNormCfgs, SDMXCfgs, SDMXFullCfgs, FLCfgs>>
 ASSUME DeclaredMatchesDerived
